@@ -25,4 +25,9 @@ void wb_mp_destroy(wb_mp *m);
 size_t wb_mp_header_bytes(void);
 void wb_local_pool_access(const void *pool);
 void wb_local_pool_reset(const void *pool);
+/* M-waitlist (events 1-5, 8, 9 of abtd_verif.h) */
+void wb_waitlist_event(int kind, const void *obj, const void *who);
+void wb_waitlist_stats(unsigned long *events, unsigned long *checks);
+const void *wb_cond_waitlist(ABT_cond cond);
+int wb_waitlist_len(const void *wl); /* elements the reference model holds for a wait list */
 #endif
